@@ -3,6 +3,7 @@
 From Coq Require Import ZArith NArith List Bool.
 From FR Require Import Dec Types Bank Match Step Genesis Model Spec Checkers.
 From FR.Proofs Require Import InvDefs InvAll ExcessAll LedgerChecker.
+From FR.Proofs Require Chk04.
 Import ListNotations.
 Open Scope Z_scope.
 
@@ -24,5 +25,8 @@ Proof. intros I. apply c01_implies_swept, c01_ok_model, I. Qed.
 
 Theorem c02_all_model s o : Inv s -> tracked s o -> c02_all (model_trans s o) = true.
 Proof.
-  intros I T. unfold c02_all. apply andb_true_iff. split; [apply c02_ok_model; assumption|apply c02_swept_model, I].
+  intros I T. unfold c02_all. apply andb_true_iff. split; [apply andb_true_iff; split|].
+  - apply c02_ok_model; assumption.
+  - apply c02_swept_model, I.
+  - apply Chk04.c04_batch_model, I.
 Qed.
